@@ -62,11 +62,11 @@ type obs struct {
 	DiscVer int    `json:"discVer"`
 	// Drop: the peer closes the first connection after answering the first request that follows the dial; the client reconnects for
 	// the next one. Discoveries counts the Discover Versions requests the peer saw over all connections.
-	Drop        bool `json:"drop"`
-	Dropped     bool `json:"dropped"`
-	Discoveries int  `json:"discoveries"`
-	Err     string `json:"err,omitempty"`
-	Panic   string `json:"panic,omitempty"`
+	Drop        bool   `json:"drop"`
+	Dropped     bool   `json:"dropped"`
+	Discoveries int    `json:"discoveries"`
+	Err         string `json:"err,omitempty"`
+	Panic       string `json:"panic,omitempty"`
 }
 
 // scripted server: answers the discovery request with `reply`, everything else with success
@@ -94,6 +94,11 @@ func serveScripted(conn net.Conn, reply []int, o *obs) {
 				bi.ResultStatus = kmip.ResultStatusOperationFailed
 				bi.ResultReason = kmip.ResultReasonOperationNotSupported
 				bi.ResultMessage = "Operation not supported"
+			case len(reply) == 1 && (reply[0] == 97 || reply[0] == 96):
+				// the reason of a server without the operation, under a status that is not Failed
+				bi.ResultStatus = map[int]kmip.ResultStatus{97: kmip.ResultStatusOperationPending, 96: kmip.ResultStatusOperationUndone}[reply[0]]
+				bi.ResultReason = kmip.ResultReasonOperationNotSupported
+				bi.ResultMessage = "not now"
 			case len(reply) == 1 && reply[0] == otherErr:
 				bi.ResultStatus = kmip.ResultStatusOperationFailed
 				bi.ResultReason = kmip.ResultReasonPermissionDenied
@@ -199,6 +204,7 @@ func cachedVersions(list []kmip.ProtocolVersion) kmipclient.Option {
 }
 
 var dropFirstConn bool
+var builds int
 
 func runOne(C []int, enforced int, nreq int, serve func(net.Conn, *obs)) *obs {
 	o := &obs{Adopted: none, Offered: []int{}, Sent: []int{}, Reply: []int{}, Drop: dropFirstConn}
@@ -249,7 +255,15 @@ func runOne(C []int, enforced int, nreq int, serve func(net.Conn, *obs)) *obs {
 				o.Outcome = "panic"
 			}
 		}()
-		cl, err := kmipclient.Dial("mem", opts...)
+		// every third client is built by DialCluster (a list of one server): the same negotiation, another constructor
+		builds++
+		var cl *kmipclient.Client
+		var err error
+		if builds%3 == 0 {
+			cl, err = kmipclient.DialCluster([]string{"mem"}, opts...)
+		} else {
+			cl, err = kmipclient.Dial("mem", opts...)
+		}
 		if err != nil {
 			o.Outcome = "failed"
 			o.Err = err.Error()
